@@ -44,7 +44,7 @@ RULE = (
     "(quick: all names x good values, all values x good name, seeded sample of the cross; thorough: the full cross), "
     "every sequence of <=4 tokens over {:method :scheme :authority :path :status :protocol :unknown regular "
     "regular-then-pseudo} raw and completed with the missing pseudo-headers, content-length spellings x DATA-frame "
-    "splits (incl. zero-length frames) x endings (FIN on frame, lone FIN, trailers) x event chunkings, each as request "
+    "splits (incl. zero-length frames, and a final DATA frame announcing K bytes but cut short after j<K by the end of the stream, declared = delivered / announced / neither) x endings (FIN on frame, lone FIN, trailers) x event chunkings, each as request "
     "(server side), response, request/response trailers, PUSH_PROMISE, push-stream response and push-stream trailers; "
     "encodings: pylsqpack static/Huffman, literal-only writer, dynamic-table with blocked-then-resumed stream. "
     "non-trivial = the block under test reached the receiver and was decided (event produced or transport closed); "
